@@ -1,6 +1,10 @@
 pub mod common;
 pub mod c01;
 pub mod c02;
+pub mod c03;
+pub mod c04;
+pub mod c05;
+pub mod c06;
 
 use crate::cfg::Case;
 use crate::runner::{Ctx, Stats};
@@ -14,5 +18,5 @@ pub struct Check {
 }
 
 pub fn all() -> Vec<Check> {
-    vec![c01::CHECK, c02::CHECK]
+    vec![c01::CHECK, c02::CHECK, c03::CHECK, c04::CHECK, c05::CHECK, c06::CHECK]
 }
